@@ -4,6 +4,7 @@
 //! C09: pending <= capacity after every operation; a plain `send` that finds the (open) queue full leaves exactly
 //!      [new item] and counts one truncation, changing nothing else; `try_send`/`send_or_wait` never discard:
 //!      they enqueue the item or hand THAT item back (a closed channel returns an error instead).
+//! C07: an overflowing `send` discards items only — watchers parked on the pending batch stay registered.
 //! C06: an accepted item is appended at the tail and the prefix is untouched (acceptance order = queue order).
 use crate::util::*;
 use core::time::Duration;
@@ -41,6 +42,14 @@ fn send_step(max_cap: usize, max_w: usize, twin: u8) {
             }
             assert!(q.len == 1 && q.items[0] == x, "overflow: queue = [new item]");
             assert!(post.truncated == pre.truncated.wrapping_add(1), "overflow: truncation counted once");
+            // C07/C08: only the ITEMS are discarded. Flush / empty callbacks parked on the pending batch stay
+            // registered there (none dropped, none invoked): a dropped flush watcher would let a flush report
+            // completion (hung-up oneshot) while an earlier batch is still in flight.
+            assert!(
+                post.on_flush == pre.n_flush && post.on_take == pre.n_take,
+                "overflow discards items only: every watcher parked on the pending batch is still registered"
+            );
+            assert!(ran(0) == 0 && ran(1) == 0 && ran(2) == 0 && ran(3) == 0, "overflow invokes no watcher");
         } else {
             // C06: appended at the tail, prefix untouched; nothing discarded, nothing counted
             if twin == 2 {
@@ -65,18 +74,19 @@ fn send_step(max_cap: usize, max_w: usize, twin: u8) {
     kani::cover!(pre.open && pre.q.len == 0, "append to empty queue");
     kani::cover!(!pre.open && pre.full(), "closed and full");
     kani::cover!(pre.in_batch && pre.n_flush == max_w && pre.n_take == max_w, "in batch with watchers");
+    kani::cover!(pre.open && pre.full() && pre.n_flush == max_w && pre.n_take == max_w, "overflow with watchers parked");
     finish(tx, rx);
 }
 
 #[kani::proof]
 #[kani::unwind(6)]
-pub fn c06c09_q_s_send() {
+pub fn c06c07c09_q_s_send() {
     send_step(3, 1, 0);
 }
 
 #[kani::proof]
 #[kani::unwind(6)]
-pub fn c06c09_t_s_send_w2() {
+pub fn c06c07c09_t_s_send_w2() {
     send_step(3, 2, 0);
 }
 
